@@ -174,7 +174,47 @@ def c05(chk):
                 "upstreams; concurrent episodes (race detector on) judged at quiescence")
     chk.assumptions = ["an upstream identity is registered at most once (the server creates a new ConnUpstream "
                        "per connection)"]
+    publication_model(chk)
     upstream_family(chk, C05_INV, [], C05_TRACE)
+
+
+PUB_INV = ["QuiescentCountsMatch", "CountFollowsRegistry", "NoNegative"]
+
+
+def publication_model(chk):
+    """Publish.tla: a call as Lock/Reg/Tell/Read/Pub/Unlock, Sync as five steps. The configuration that describes
+    the code must satisfy the property; the configurations that drop one of the three facts it rests on must
+    violate it (otherwise the model has lost its teeth). The schedules it explores are the ones the Stalled and
+    StartUp episodes of the engine aim at."""
+    procs = {"p1", "p2", "p3"}
+
+    def c(calls, hold, sub, listen):
+        return {"Proc": procs, "Calls": vp.Sub(calls), "HoldLock": hold, "SubscribeFirst": sub,
+                "ListenAfterSync": listen}
+    G.model_check(chk, "C05-publish-code", c("CallsMixed", True, True, True), PUB_INV, ["Finishes"], view=None,
+                  module="Publish")
+    G.model_check(chk, "C05-publish-late-subscription-masked", c("CallsAdd", True, False, True), PUB_INV,
+                  ["Finishes"], view=None, module="Publish")
+    teeth = {}
+    for label, cc in (("lock-released-early", c("CallsAdd", False, True, True)),
+                      ("late-subscription", c("CallsAdd", True, False, False)),
+                      ("upstreams-during-sync", c("CallsMixed", True, True, False))):
+        res = G.model_check(chk, "C05-publish-" + label, cc, PUB_INV, [], view=None, module="Publish",
+                            expect_violation=True)
+        teeth[label] = res.violated
+        if not res.violated:
+            raise vp.Machinery("Publish.tla no longer rejects the configuration '%s'" % label)
+    chk.notes["publication_model"] = {
+        "code": "HoldLock, SubscribeFirst, ListenAfterSync: QuiescentCountsMatch holds",
+        "rejected_configurations": teeth}
+    # ListenAfterSync is a fact of server.go's Start(): gossip (and with it Sync) before the upstream port
+    src = open(os.path.join(vp.REPO, "server", "server.go")).read()
+    m = re.search(r"func \(s \*Server\) Start\(\) error \{(.*?)\n}\n", src, re.S)
+    body = m.group(1) if m else ""
+    i, j = body.find("s.startGossip()"), body.find("s.startUpstreamServer()")
+    if i < 0 or j < 0 or i > j:
+        raise vp.Machinery("server.go Start(): the upstream port is no longer opened after gossip has started; "
+                           "Publish.tla's ListenAfterSync does not describe this tree")
 
 
 @prop("C15")
